@@ -18,6 +18,20 @@ pub struct FixedTransaction {
 
 to_from_bytes!(FixedTransaction);
 
+// The raw bytes given to a FixedTransaction are kept verbatim inside the serialized transaction,
+// so they must hold exactly one item: bytes after it would make the transaction ill-formed CBOR.
+fn deserialize_whole<T: Deserialize>(bytes: &[u8], what: &str) -> Result<T, JsError> {
+    let mut raw = Deserializer::from(std::io::Cursor::new(bytes.to_vec()));
+    let value = T::deserialize(&mut raw)?;
+    if raw.as_mut_ref().position() != bytes.len() as u64 {
+        return Err(JsError::from_str(&format!(
+            "unexpected bytes after the {}",
+            what
+        )));
+    }
+    Ok(value)
+}
+
 #[wasm_bindgen]
 impl FixedTransaction {
     pub fn new(
@@ -79,7 +93,7 @@ impl FixedTransaction {
     }
 
     pub fn new_from_body_bytes(raw_body: &[u8]) -> Result<FixedTransaction, JsError> {
-        let body = TransactionBody::from_bytes(raw_body.to_vec())?;
+        let body: TransactionBody = deserialize_whole(raw_body, "transaction body")?;
         let tx_hash = TransactionHash::from(blake2b256(raw_body));
 
         let tag_state = has_transaction_set_tag_internal(&body, None)?;
@@ -143,7 +157,7 @@ impl FixedTransaction {
     }
 
     pub fn set_body(&mut self, raw_body: &[u8]) -> Result<(), JsError> {
-        let body = TransactionBody::from_bytes(raw_body.to_vec())?;
+        let body: TransactionBody = deserialize_whole(raw_body, "transaction body")?;
         self.body = body;
         self.body_bytes = raw_body.to_vec();
         self.tx_hash = TransactionHash::from(blake2b256(raw_body));
@@ -180,7 +194,7 @@ impl FixedTransaction {
     }
 
     pub fn set_auxiliary_data(&mut self, raw_auxiliary_data: &[u8]) -> Result<(), JsError> {
-        let auxiliary_data = AuxiliaryData::from_bytes(raw_auxiliary_data.to_vec())?;
+        let auxiliary_data: AuxiliaryData = deserialize_whole(raw_auxiliary_data, "auxiliary data")?;
         self.auxiliary_data = Some(auxiliary_data);
         self.auxiliary_bytes = Some(raw_auxiliary_data.to_vec());
         Ok(())
